@@ -160,6 +160,14 @@ def _mutate(rng, raw: bytes, layout: list, other: bytes) -> tuple[bytes, str]:
     lens = [e for e in layout if e[2] in VARINT_ROLES or e[2] in FIXED_LEN_ROLES]
     markers = [e for e in layout if e[2] == "marker"]
     tags = [e for e in layout if e[2] == "tag"]
+    len16 = [e for e in lens if e[2] in FIXED_LEN_ROLES and e[1] == 2]
+    if len16 and rng.random() < 0.03:
+        # a corrupted int16 length whose top bit is set, *followed by as many bytes as it would claim if read unsigned*: a reader that
+        # gets the signedness wrong finds its bytes and returns a string no writer accepts (without them it would merely underflow)
+        off, ln, _, _ = len16[-1] if rng.random() < 0.7 else rng.choice(len16)  # (the last one is often the last field: then an entity comes back)
+        v = rng.choice((0x8000, 0x8001, 0xC000, 0xFFFE))
+        filler = bytes(rng.choice(b"abcdefghijklmnopqrstuvwxyz-_.0123456789") for _ in range(64)) * (v // 64 + 1)
+        return bytes(b[:off]) + v.to_bytes(2, "big") + filler[:v] + bytes(b[off + 2 + max(0, int.from_bytes(raw[off:off + 2], "big", signed=True)):][:64]), "length-satisfied"
     if lens:
         kinds += ["length"] * 4 + ["contbit"] * 2
     if markers:
@@ -395,17 +403,92 @@ def c10_worker(res: Result, i: int, n: int) -> None:
     res.coverage["max_steps_per_byte_x1000"] = int(max_ratio * 1000)
 
 
+_SCALING = """
+import io, json, sys, time
+sys.path.insert(0, {verif!r})
+from kv import common, refcodec  # (puts the tree under test on sys.path)
+from kio.serial import entity_reader
+from kio.schema.sasl_authenticate.v0.request import SaslAuthenticateRequest as Legacy
+from kio.schema.sasl_authenticate.v2.request import SaslAuthenticateRequest as Flexible
+from kio.schema.produce.v3.request import PartitionProduceData
+
+def encodings(n):
+    payload = bytes(n)
+    return {{"legacy bytes": (Legacy, n.to_bytes(4, "big") + payload), "compact bytes": (Flexible, refcodec.uvarint(n + 1) + payload + b"\\x00"),
+            "legacy records": (PartitionProduceData, (7).to_bytes(4, "big") + n.to_bytes(4, "big") + payload)}}
+
+def best(fn, reps):
+    out = []
+    for _ in range(reps):
+        t0 = time.process_time_ns()
+        fn()
+        out.append(time.process_time_ns() - t0)
+    return max(1, min(out))
+
+res = {{}}
+for name in encodings(1):
+    row = []
+    for n in ({small}, {big}):
+        cls, data = encodings(n)[name]
+        reader = entity_reader(cls)
+        decode = best(lambda: reader(io.BytesIO(data)), 7)
+        copy = best(lambda: data[8:], 7)  # one allocation + one copy of (nearly) the same size, in the same allocator / cache regime
+        row.append([decode, copy])
+    res[name] = row
+print(json.dumps(res))
+"""
+
+
+def scaling_probe(res: Result) -> None:
+    """Time proportional to the input size, measured where work hides from step counts.  A valid value of N and of 8 N bytes is decoded
+    (CPU time of the process, best of seven); each time is divided by the time of ONE plain copy of the same number of bytes taken in the
+    same process, which cancels the allocator's and the caches' size regimes (a raw 8 N / N ratio jumps from 8 to 60 on this machine
+    between 16 and 32 MiB for perfectly linear code).  Linear decoding keeps that quotient constant (growth 1.0, measured 0.94-1.05);
+    re-copying what was read so far makes it grow about 8-fold.  A growth above 3 has to show in three independent rounds to count."""
+    import json
+    import os
+    import subprocess
+    import sys
+
+    small, big = 2 << 20, 16 << 20
+    rounds: list[dict] = []
+
+    def growth(row: list) -> float:
+        (ds, cs), (db, cb) = row
+        return (db / cb) / (ds / cs)
+
+    for _ in range(3):
+        try:
+            p = subprocess.run([sys.executable, "-c", _SCALING.format(verif=str(common.VERIF), small=small, big=big)], capture_output=True, text=True, timeout=900,
+                               env=dict(os.environ, PYTHONHASHSEED="0"), cwd=str(common.VERIF))
+            rounds.append(json.loads(p.stdout.strip().splitlines()[-1]))
+        except Exception as exc:  # noqa: BLE001
+            res.inconclusive_because(f"scaling probe did not report: {exc!r}")
+            return
+        if max(growth(row) for row in rounds[-1].values()) <= 3:
+            break  # proportional in this round: nothing to confirm
+    res.count("scaling_probe_rounds", len(rounds))
+    growths = {name: [round(growth(r[name]), 2) for r in rounds] for name in rounds[0]}
+    res.coverage["scaling_probe"] = {"sizes": [small, big], "growth_of_decode_time_over_copy_time_by_round": growths, "cpu_ns_decode_and_copy_last_round": rounds[-1]}
+    for name, gs in growths.items():
+        if len(gs) == 3 and min(gs) > 3:
+            res.violation(f"superlinear:{name.replace(' ', '-')}", f"decoding a {name} value: going from {small} to {big} bytes the CPU time grew {min(gs)}..{max(gs)} times faster "
+                          f"than the time of one plain copy of the same bytes, in three independent rounds: not proportional to the input size", {"field": name, "growth": gs, "rounds": rounds})
+
+
 def run_c10(tier_: str) -> int:
     res = Result("C10", "exploration", tier_)
     errs = refcodec.self_test()
     if errs:
         res.inconclusive_because("reference codec self-test failed: " + "; ".join(errs[:3]))
     shard.run(res, "kv.checks.faults:c10_worker", timeout=1200 if tier_ == "quick" else 7200)
+    scaling_probe(res)
     c = res.counters
     oc = res.coverage.get("outcomes", {})
     floor_ok = (c.get("classes", 0) >= 1600 and c.get("inputs", 0) > 1000 and oc.get("returned", 0) > 0
                 and sum(v for k, v in oc.items() if k not in ("returned",)) > 0)
-    res.assumptions.append("logical step budget 64 + 32 per input byte stands in for 'time proportional to the input size'")
+    res.assumptions.append("logical step budget 64 + 32 per input byte stands in for 'time proportional to the input size'; work below the level of Python "
+                           "calls is probed separately: CPU time of decoding a 2 MiB and a 16 MiB value, each relative to one plain copy of the same size (three rounds must agree before it counts)")
     res.assumptions.append("allowed errors: kio.serial.errors.SerialError subclasses, ValueError (incl. UnicodeDecodeError), OverflowError")
     return res.finish(
         c.get("inputs", 0), int(res.coverage.get("distinct_inputs", 0)),
